@@ -37,6 +37,7 @@ type Hint struct {
 	//  other    k-th prefix held by some other client
 	//  blk      block K mod N of the pool whatever its state
 	//  outpool  a prefix outside the pool
+	//  after    the block right after the pool (K%3 blocks further), before: right before it
 	//  toolong  length > 128 on the wire
 	Kind  string `json:"kind"`
 	K     uint64 `json:"k,omitempty"`
@@ -237,6 +238,20 @@ func (m *model) resolveHint(client int, h Hint) (wireHint, bool) {
 		p := hs[h.K%uint64(len(hs))]
 		l, _ := p.Mask.Size()
 		w.plen, w.ip = uint8(l), append(net.IP(nil), p.IP...)
+	case "after", "before":
+		// the block right after the last block of the pool / right before its first one (K more
+		// blocks away), if the address space has room for it
+		n := new(big.Int).SetUint64(m.n + h.K%3)
+		if h.Kind == "before" {
+			n = big.NewInt(-1 - int64(h.K%3))
+		}
+		v := new(big.Int).Add(m.base, new(big.Int).Mul(n, m.blockSz))
+		if v.Sign() < 0 || v.Cmp(two128) >= 0 {
+			return w, false
+		}
+		ip := make(net.IP, 16)
+		v.FillBytes(ip)
+		w.plen, w.ip = uint8(m.c.Page), ip
 	case "outpool":
 		// flip the top bit of the pool base: never inside the pool (pool length >= 1)
 		ip := m.blockIP(0, h.Inner)
